@@ -323,7 +323,9 @@ def witness(f, r, ln, bad, rng):
 # ----------------------------------------------------------------------------------------------------------------------------------
 # atom names that are not identifiers (blanks, operators, brackets, quotes, printed formulas, reserved words): the rewriting may
 # not look at, let alone change, the NAME of an atom - the model treats names as opaque strings
-EXOTIC = ['door open', 'x>0', 'not p', '(p or q)', 'p U q', '"q"', 'A', 'true', '', ' p', 'p ', 'a.b', "it's", '[E(X(p))]', 'fair0']
+EXOTIC = ['door open', 'x>0', 'not p', '(p or q)', 'p U q', '"q"', 'A', 'true', '', ' p', 'p ', 'a.b', "it's", '[E(X(p))]', 'fair0',
+          # names that print like PYTHON values (str(True) == 'True': a comparison of an atom with a Python bool / None / number by printed form)
+          'True', 'False', 'None', '1', '0', 'TRUE', 'false']
 # pairs of DISTINCT names that collapse to one name under some normalisation of text: dropping or replacing non-ASCII characters,
 # unicode normal forms (NFC/NFKC), case folding, stripping, truncation.  Any str is a legal atom name.
 COLLAPSING = [('porta_\u00e8_aperta', 'porta_\u00e9_aperta'), ('\u03b1', '\u03b2'), ('na\u00efve', 'nave'), ('p\u0301', 'p'), ('q', 'q '),
@@ -431,8 +433,8 @@ def run(R):
         meta.append((logic, f, impl_obs(logic, f)))
         cmds.extend(model_cmds(logic, f))
     outs = model_batch_parallel(cmds)
-    nsearch = 0.0
     hw, nonascii = {}, 0
+    differing = []
     for i, (logic, f, obs) in enumerate(meta):
         R.evaluations += 1
         m_r, m_ln = model_obs(logic, f, outs[2 * i], outs[2 * i + 1])
@@ -442,20 +444,38 @@ def run(R):
             nonascii += 1
         bad = judge(logic, f, obs, m_r, m_ln)
         if bad:
-            cex = None
-            if nsearch <= 45.0:   # witnesses are searched until 45 s have been spent on it; later differences are reported as they are
-                t_s = time.time()
-                cex = witness(f, r, ln, bad, rng)
-                nsearch += time.time() - t_s
-            R.violation('rewriting differs from the proved model: %s' % ','.join(bad),
-                        {'logic': logic, 'formula': f, 'formula_str': fstr(f), 'impl_restricted': r, 'model_restricted': m_r,
-                         'impl_LNot': ln, 'model_LNot': m_ln, 'impl_modules': {'restricted': obs[3], 'LNot': obs[4]},
-                         'semantic_counterexample': cex},
-                        no_input=(cex is None and not any(b in CONCRETE for b in bad)))
+            differing.append((logic, f, obs, m_r, m_ln, bad))
             continue
         if r[0] == 'ok' and r[1] != f:
             R.nontriv((logic, f))
             R.sample({'logic': logic, 'formula': fstr(f), 'restricted': fstr(r[1])})
+    # witnesses are searched until 45 s have been spent on it; later differences are reported as they are.  Many differences of one
+    # mutation are harmless simplifications (no witness exists, each costs the full per-case budget): formulas over unusual atom names
+    # and small formulas are searched first, and the kinds of difference take turns.
+    def prio(d):
+        logic, f, obs, m_r, m_ln, bad = d
+        return (0 if not fatoms(f) <= {'p', 'q'} else 1, fsize(f))
+    groups = {}
+    for d in sorted(differing, key=prio):
+        groups.setdefault((d[0], tuple(d[5]), prio(d)[0], d[1][0]), []).append(d)
+    order = []
+    while any(groups.values()):
+        for k in sorted(groups, key=lambda k: (k[2], k)):
+            if groups[k]:
+                order.append(groups[k].pop(0))
+    nsearch = 0.0
+    for logic, f, obs, m_r, m_ln, bad in order:
+        r, ln = obs[0], obs[1]
+        cex = None
+        if nsearch <= 45.0:
+            t_s = time.time()
+            cex = witness(f, r, ln, bad, rng)
+            nsearch += time.time() - t_s
+        R.violation('rewriting differs from the proved model: %s' % ','.join(bad),
+                    {'logic': logic, 'formula': f, 'formula_str': fstr(f), 'impl_restricted': r, 'model_restricted': m_r,
+                     'impl_LNot': ln, 'model_LNot': m_ln, 'impl_modules': {'restricted': obs[3], 'LNot': obs[4]},
+                     'semantic_counterexample': cex},
+                    no_input=(cex is None and not any(b in CONCRETE for b in bad)))
     R.cov['distribution'] = {l: sum(1 for it in items if it[0] == l) for l in LOGICS}
     R.cov['streams'] = dist
     R.cov['or_and_nodes_by_width'] = {str(k): hw[k] for k in sorted(hw)}
